@@ -219,3 +219,19 @@ Example ex_json_token_reads_back :
   match from_json ex_verify ex_header dtok dlg_from_payload dlg_tag 9 (to_json ex_sign [1; 2] dlg_tag (dlg_to_payload ex_dtok)) with
   | Ok t' => True | _ => False end.
 Proof. vm_compute. exact I. Qed.
+
+(* ---- C14 DAG-JSON route: the example delegation's policy (it holds a map literal) meets the premises, and the text reads back ---- *)
+Require Import PolicyJsonProofs.
+Example ex_policy_json_premises :
+  Forall wf_stmt (dk_pol ex_dtok) /\ ints_in53 (pol_to_ipld (dk_pol ex_dtok)) = true /\
+  jsafe (pol_to_ipld (dk_pol ex_dtok)) /\ keys_distinct (pol_to_ipld (dk_pol ex_dtok)) /\ (jdepth (pol_to_ipld (dk_pol ex_dtok)) <= 9)%nat /\
+  dk_pol ex_dtok <> [].
+Proof.
+  split; [apply (dc_pol_wf ex_dtok ex_dtok_constructed) || (pose proof ex_dtok_constructed as H; apply H)|].
+  split; [vm_compute; reflexivity|]. split; [apply jsafeb_sound; vm_compute; reflexivity|].
+  split; [vm_compute; repeat split; try reflexivity; try discriminate; repeat constructor; cbn; intuition discriminate|].
+  split; [vm_compute; lia | discriminate].
+Qed.
+Example ex_policy_json_reads_back :
+  match pol_from_json 9 (pol_to_json (dk_pol ex_dtok)) with Ok p' => map canon_stmt p' = map canon_stmt (dk_pol ex_dtok) | _ => False end.
+Proof. vm_compute. reflexivity. Qed.
